@@ -260,9 +260,22 @@ func slCap(s string) string { return sx("s-cap", s) }
 
 func mkSlice(arr, off, ln, cp string) string { return sx("mk-slice", arr, off, ln, cp) }
 
+// elemRef is the object identity of element idx of the backing array arr (slices of structs are
+// modelled as arrays of objects whose fields live in the per-field heap arrays).
+func (c *Ctx) elemRef(arr, idx string) string {
+	c.declFun("eref", []string{sortRef, bvSort(64)}, sortRef)
+	c.declFun("eref_arr", []string{sortRef}, sortRef)
+	c.declFun("eref_idx", []string{sortRef}, bvSort(64))
+	c.fact("eref", "(forall ((a Ref) (i (_ BitVec 64))) (! (and (= (eref_arr (eref a i)) a) (= (eref_idx (eref a i)) i) (not (= (eref a i) nil)) (= (alive0 (eref a i)) (alive0 a))) :pattern ((eref a i))))", "eref")
+	return sx("eref", arr, idx)
+}
+
 func (st *State) sliceElemPtr(s Val, idx string) *Ptr {
 	c := st.ex.ctx
 	et := s.Ty.Underlying().(*types.Slice).Elem()
+	if c.isDatatypeStruct(et) {
+		return &Ptr{Kind: pObj, Base: c.elemRef(slArr(s.T), sx("bvadd", slOff(s.T), idx)), Elem: et}
+	}
 	h := c.elemHeap(c.sortFor(et))
 	return &Ptr{Kind: pElem, Base: slArr(s.T), Heap: h, Idx: sx("bvadd", slOff(s.T), idx), Elem: et}
 }
